@@ -313,6 +313,13 @@ func verifyErrClass(m string) string {
 	return "other:" + strings.ReplaceAll(trunc(m, 60), " ", "_")
 }
 
+// Agree: which of several reasons an archive is rejected for — and in what words — is not part of the property;
+// accepted vs rejected is.  (Each generated case carries at most one corruption, so a check that disappears
+// turns "err" into "ok".)
+func (C15) Agree(line, goOut, modelOut string) bool {
+	return goOut == modelOut || (strings.HasPrefix(goOut, "err ") && strings.HasPrefix(modelOut, "err "))
+}
+
 func (C15) NonTrivial(line string) bool {
 	return strings.Count(line, ":") >= 9 // at least 3 entries
 }
